@@ -359,3 +359,33 @@ class ScriptedInitiator:
         except OSError:
             pass
         return ok
+
+
+def make_teed_gateway(group, specstring: str):
+    """Like Group.makegateway, but with a TeeIO around the initiator's IO so that every byte its
+    receiver thread reads is recorded (wire purity).  Returns (gateway, tee); tee.reads[0] holds the
+    bootstrap acknowledgement byte b'1'."""
+    from execnet import gateway_bootstrap
+    from execnet import gateway_io
+    from execnet import gateway_socket
+
+    spec = execnet.XSpec(specstring)
+    group.allocate_id(spec)
+    if spec.execmodel is None:
+        spec.execmodel = group.remote_execmodel.backend
+    if spec.via:
+        master = group[spec.via]
+        proxy_channel = master.remote_exec(gateway_io)
+        proxy_channel.send(vars(spec))
+        io = gateway_io.ProxyIO(proxy_channel, group.execmodel)
+    elif spec.popen:
+        io = gateway_io.create_io(spec, execmodel=group.execmodel)
+    elif spec.socket:
+        io = gateway_socket.create_io(spec, group, execmodel=group.execmodel)
+    else:
+        raise ValueError(specstring)
+    tee = TeeIO(io)
+    gw = gateway_bootstrap.bootstrap(tee, spec)
+    gw.spec = spec
+    group._register(gw)
+    return gw, tee
